@@ -440,6 +440,7 @@ func (d *driver) writeEvidence(violations int, knownHit []string, counts map[str
 	hashes := map[uint64]struct{}{}
 	scheds := map[uint64]struct{}{}
 	states := map[uint64]struct{}{}
+	orders := map[uint64]struct{}{}
 	var evals, nontriv int64
 	var samples []any
 	for _, r := range d.reports {
@@ -463,10 +464,19 @@ func (d *driver) writeEvidence(violations int, knownHit []string, counts map[str
 		for _, h := range r.States {
 			states[h] = struct{}{}
 		}
+		for _, h := range r.Orders {
+			orders[h] = struct{}{}
+		}
 		for _, s := range r.Samples {
 			if len(samples) < 8 {
 				samples = append(samples, s)
 			}
+		}
+	}
+	bothWays := 0
+	for o := range orders {
+		if _, ok := orders[(o<<32)|(o>>32)]; ok && (o>>32) < (o&0xffffffff) {
+			bothWays++
 		}
 	}
 	wall := time.Since(d.start).Seconds()
@@ -484,31 +494,33 @@ func (d *driver) writeEvidence(violations int, knownHit []string, counts map[str
 		}
 	}
 	cov := map[string]any{
-		"evaluations":              evals,
-		"distinct_nontrivial":      len(hashes),
-		"nontrivial_total":         nontriv,
-		"rule":                     d.spec.Rule,
-		"samples":                  samples,
-		"discarded_outside_domain": discards,
-		"faults_fired":             faults,
-		"reach_probes":             probes,
-		"counters":                 other,
-		"maxima":                   maxStats,
-		"distinct_schedules":       len(scheds),
-		"distinct_states":          len(states),
-		"simulated_ticks":          stats["ticks"],
-		"runs_per_hour":            int64(float64(evals) / wall * 3600),
-		"seeds_per_hour":           int64(float64(evals) / wall * 3600),
-		"seed_note":                "every case has its own PRNG stream derived from (VERIF_SEED, case number); one case = one simulated run = one replayable seed",
-		"simulated_time_unit":      "ticks (function entries and loop iterations of instrumented gmars code) and scheduler steps",
-		"scheduler_steps":          stats["sched.steps"],
-		"distinct_measure":         "distinct_schedules = distinct (task,site,kind) decision traces; distinct_states = distinct (core, queues, cycle) snapshots after API calls (battle engines); lower bounds once a worker's set reaches 400000",
-		"workers":                  d.workers,
-		"real_components":          d.spec.Real,
-		"stub_components":          d.spec.Stubs,
-		"known_findings_hit":       knownHit,
-		"violation_signatures":     counts,
-		"exhaustive":               false,
+		"evaluations":                    evals,
+		"distinct_nontrivial":            len(hashes),
+		"nontrivial_total":               nontriv,
+		"rule":                           d.spec.Rule,
+		"samples":                        samples,
+		"discarded_outside_domain":       discards,
+		"faults_fired":                   faults,
+		"reach_probes":                   probes,
+		"counters":                       other,
+		"maxima":                         maxStats,
+		"distinct_schedules":             len(scheds),
+		"distinct_states":                len(states),
+		"cross_task_site_orderings":      len(orders),
+		"site_pairs_seen_in_both_orders": bothWays,
+		"simulated_ticks":                stats["ticks"],
+		"runs_per_hour":                  int64(float64(evals) / wall * 3600),
+		"seeds_per_hour":                 int64(float64(evals) / wall * 3600),
+		"seed_note":                      "every case has its own PRNG stream derived from (VERIF_SEED, case number); one case = one simulated run = one replayable seed",
+		"simulated_time_unit":            "ticks (function entries and loop iterations of instrumented gmars code) and scheduler steps",
+		"scheduler_steps":                stats["sched.steps"],
+		"distinct_measure":               "distinct_schedules = distinct (task,site,kind) decision traces; distinct_states = distinct (core, queues, cycle) snapshots after API calls (battle engines); lower bounds once a worker's set reaches 400000",
+		"workers":                        d.workers,
+		"real_components":                d.spec.Real,
+		"stub_components":                d.spec.Stubs,
+		"known_findings_hit":             knownHit,
+		"violation_signatures":           counts,
+		"exhaustive":                     false,
 	}
 	for k, v := range d.extra {
 		cov[k] = v
